@@ -5,6 +5,8 @@ import Falcon.Lemmas.Karatsuba
 import Falcon.Lemmas.KeygenSound
 import Falcon.Model.KeygenSkel
 import Falcon.Lemmas.PublicKey
+import Falcon.Lemmas.EntrySound
+import Falcon.Lemmas.KeygenLengths
 
 /-!
 # C04 — generated key pairs are valid NTRU trapdoors (algebraic core)
@@ -174,6 +176,55 @@ theorem model_babai_reduce_preserves_ntru {R : Type} [CommRing R] (j : Nat) (f g
 theorem model_keys_pass_all_guards (chk : Bool) (n : Nat) (seed : List Nat) (f g cF cG : List Int) (k : Nat)
     (h : Keygen.ntruGen chk n seed = .ok (.key f g cF cG k)) : Keygen.Accepted chk n f g cF cG :=
   Keygen.ntruGen_accepted chk n seed f g cF cG k h
+
+/-- **the 32-bit top level inside its exactness window**: `babai_reduce_i32` as modelled (Z_p transforms for the products
+    k⋆f, k⋆g, i32 subtractions, floating-point quotients) is total in both build modes and leaves f⋆G − g⋆F unchanged at
+    every root of Xⁿ+1, for every n = 2…1024, whenever the executable window predicate of the run holds (every round:
+    k within (−p, p), k⋆f and k⋆g within ±(p−1)/2, the subtraction within i32) -/
+theorem babai_reduce_i32_sound_in_window {R : Type} [CommRing R] (chk : Bool) (d : Nat) (hd : d ≤ 10) (hd1 : 1 ≤ d)
+    (f g cF cG : List Int) (lf : f.length = 2 ^ d) (lg : g.length = 2 ^ d) (h1 : cF.length = 2 ^ d) (h2 : cG.length = 2 ^ d)
+    (hw : Keygen.babaiI32W f g cF cG = true) :
+    ∃ okf a b, Keygen.babaiI32 chk f g cF cG = .ok (okf, a, b) ∧ a.length = 2 ^ d ∧ b.length = 2 ^ d ∧
+      ∀ (ρ : R), ρ ^ (2 ^ d) = -1 →
+        RingZ.ev f ρ * RingZ.ev b ρ - RingZ.ev g ρ * RingZ.ev a ρ = RingZ.ev f ρ * RingZ.ev cG ρ - RingZ.ev g ρ * RingZ.ev cF ρ :=
+  Keygen.babaiI32_inv chk d hd hd1 f g cF cG lf lg h1 h2 hw
+
+/-- **`ntru_solve_entrypoint` returns only solutions of the NTRU equation inside its window**: the recursion below it is
+    sound unconditionally (`model_ntru_solve_sound`); the lifting products and the reduction at the top run in 32 bits
+    and are exact while `Keygen.entryWindow f g` — an executable predicate the driver evaluates on every generated key —
+    holds; then f⋆G − g⋆F = (q, 0, …, 0) coefficient for coefficient, both build modes -/
+theorem entry_level_sound_in_window (chk : Bool) (j : Nat) (hj : j + 1 ≤ 10) (f g cF cG : List Int)
+    (lf : f.length = 2 ^ (j + 1)) (lg : g.length = 2 ^ (j + 1)) (hw : Keygen.entryWindow f g = true)
+    (hs : Keygen.ntruSolveEntry chk f g = .ok (some (cF, cG))) :
+    cF.length = 2 ^ (j + 1) ∧ cG.length = 2 ^ (j + 1) ∧
+    RingZ.ntruLhs (2 ^ (j + 1)) f g cF cG = (12289 : Int) :: List.replicate (2 ^ (j + 1) - 1) 0 :=
+  Keygen.ntruSolveEntry_exact chk j hj f g cF cG lf lg hw hs
+
+/-- **every key the modelled key generation returns is a valid NTRU trapdoor** — for every seed and both variants:
+    f, g, F, G have N coefficients, f⋆G − g⋆F = q exactly over ℤ[X]/(X^N+1), no NTT slot of f is zero (f invertible
+    modulo q) and |F_i|, |G_i| ≤ 127.  The only hypothesis beyond "the model returned this key" is the window of the
+    32-bit top level for this (f, g), evaluated by the driver on every generated key (`window=ok`). -/
+theorem model_generated_keys_are_ntru_trapdoors (chk : Bool) (N j : Nat) (hN : (N = 512 ∧ j = 8) ∨ (N = 1024 ∧ j = 9))
+    (seed : List Nat) (f g cF cG : List Int) (k : Nat)
+    (h : Keygen.ntruGen chk N seed = .ok (.key f g cF cG k)) (hw : Keygen.entryWindow f g = true) :
+    f.length = N ∧ g.length = N ∧ cF.length = N ∧ cG.length = N ∧
+    RingZ.ntruLhs N f g cF cG = (12289 : Int) :: List.replicate (N - 1) 0 ∧
+    (∀ x ∈ Ntt.ntt (j + 1) (Ntt.toZq f), x ≠ 0) ∧ (∀ c ∈ cF ++ cG, c.natAbs ≤ 127) := by
+  have hNj : N = 2 ^ (j + 1) ∧ j + 1 ≤ 10 ∧ 0 < N ∧
+      Gen.genPolyNumCoefficients = Gen.genPolyNumCoefficients / N * N := by
+    rcases hN with ⟨rfl, rfl⟩ | ⟨rfl, rfl⟩ <;> exact ⟨by decide, by decide, by decide, by decide⟩
+  obtain ⟨hNj, hj, hpos, hdiv⟩ := hNj
+  obtain ⟨lf, lg⟩ := Keygen.ntruGen_lengths chk N hpos hdiv seed f g cF cG k h
+  obtain ⟨_, hinv, _, hent, hcap⟩ := Keygen.ntruGen_accepted chk N seed f g cF cG k h
+  obtain ⟨lF, lG, hntru⟩ := Keygen.ntruSolveEntry_exact chk j hj f g cF cG (by rw [lf, hNj]) (by rw [lg, hNj]) hw hent
+  refine ⟨lf, lg, by rw [lF, hNj], by rw [lG, hNj], by rw [hNj]; exact hntru, ?_, ?_⟩
+  · have hlog : FftFlt.log2 N = j + 1 := by rw [hNj]; exact Keygen.log2_pow (j + 1)
+    rw [hlog] at hinv
+    exact hinv
+  · intro c hc
+    have := hcap c hc
+    have h127 : Gen.capGuardLimit = 127 := rfl
+    omega
 
 /-- non-vacuity: the model of NTRUSolve on (f, g) = (1 + X, 3 + 2X) (n = 2; N f = 2, N g = 13, −6·2 + 1·13 = 1, no Babai
     rounds) returns a pair that solves the equation over ℤ -/
